@@ -136,6 +136,21 @@ def handle (req : Json) : R Json := do
     let (_, outs) := runReg init ops
     pure (Json.mkObj [("outs", Json.arr (outs.map fun o => Json.str (match o with
       | .accept => "accept" | .acceptWarn => "accept-warn" | .reject => "reject")).toArray)])
+  | "parse_doc" => do
+    -- `parse(document)`: the root, then each dict/bool entry of the root's "definitions"
+    let tables ← getTables req
+    let sv ← decVal (← req.getObjVal? "schema")
+    let root ← decSchema sv
+    let defs ← match sv with
+      | .obj kvs => (match JVal.lookup "definitions" kvs with
+        | some (.obj ds) => (ds.filter fun d => match d.2 with | .obj _ => true | .bool _ => true | _ => false).mapM fun d => do
+            pure (d.1, ← decSchema d.2)
+        | _ => pure [])
+      | _ => pure []
+    let cx : PCtx := { ci := tables.charInfo }
+    match parseDoc cx root defs with
+    | .error e => pure (Json.mkObj [("parse", "err"), ("kind", perrName e)])
+    | .ok els => pure (Json.mkObj [("parse", "ok"), ("elems", Json.arr (els.map encElem).toArray)])
   | "attr_names" => do
     let tables ← getTables req
     let names ← (← (← req.getObjVal? "names").getArr?).toList.mapM (·.getStr?)
